@@ -244,6 +244,34 @@ def gen_case(rng, tier, index):
            "base": base_cfg, "m2": m2_cfg, "pv": sorted(pv), "hooks": hooks, "ebg": ebg,
            "guarded": {"base": base_guard, "m2": m2_guard, "ebg": ["x_ebg_light"]}}
 
+    # held mode stops ("outro"): the mode_<name>_stopping queue event is held for some virtual seconds by a
+    # queue_relay_player + delayed event_player entry.  Ball end has to wait for a mode whose stop is in progress.
+    # Durations are x.003 s while all operations happen at multiples of 5 ms: a hold never runs out at the very
+    # instant of an operation (exact-instant coincidence: a start request in the loop iteration in which the
+    # ball_ending queue completes is neither clearly this ball's nor the next one's).
+    holds = {}
+    hk = rng.random()
+    if hk < 0.35:
+        holds["m2"] = rng.choice([0.503, 1.003, 2.003, 3.003, 5.003])
+    if hk < 0.08 or hk > 0.88:
+        holds["base"] = rng.choice([0.503, 1.003, 3.003])
+        base_cfg["mode"]["stop_events"] = "x_base_halt"
+    cfg["holds"] = holds
+
+    def held_stop_pattern(which):
+        """stop requested -> ball drains within the hold -> stimuli (for whoever is up then) -> hold runs out."""
+        stim = m2_stim if which == "m2" else base_stim
+        seq = []
+        if which == "m2":
+            seq.append(["ev", "x_m2_go"])
+        seq += [["ev", rng.choice(stim)] for _ in range(rng.randint(1, 4))]
+        seq.append(["ev", "x_m2_halt" if which == "m2" else "x_base_halt"])
+        seq += [["ev", rng.choice(stim)] for _ in range(rng.randint(0, 2))]
+        seq.append(["drain"])
+        seq += [["ev", rng.choice(stim if rng.random() < 0.8 else base_stim + m2_stim)] for _ in range(rng.randint(3, 8))]
+        seq.append(["adv", round(holds[which] + 0.497, 3)])
+        return seq
+
     pv_events = sorted(pv)
     n_players = rng.choice([1, 2, 2, 3, 3, 4])
     ops = [["start_game"]]
@@ -255,6 +283,9 @@ def gen_case(rng, tier, index):
         if pending_adds and rng.random() < 0.4:
             ops.append(["add_player"])
             pending_adds -= 1
+            continue
+        if holds and not pending_adds and rng.random() < 0.035:
+            ops += held_stop_pattern(rng.choice(sorted(holds)))
             continue
         if k < 0.13:
             ops.append(["drain"])
@@ -295,6 +326,12 @@ def machine_config(cfg):
         ep.setdefault(trig, [])
         if ev not in ep[trig]:
             ep[trig].append(ev)
+    qr = {}
+    for which, secs in cfg.get("holds", {}).items():
+        qr["mode_%s_stopping" % which] = {"post": "x_%s_outro_start" % which, "wait_for": "x_%s_outro_done" % which}
+        ep["x_%s_outro_start" % which] = ["x_%s_outro_done|%dms" % (which, int(secs * 1000))]
+    if qr:
+        mc["queue_relay_player"] = qr
     if ep:
         mc["event_player"] = ep
     return mc
